@@ -384,6 +384,8 @@ class SymArray(rnp.ndarray):
     # -- ufunc dispatch
     def __array_ufunc__(self, ufunc, method, *inputs, out=None, **kwargs):
         name = ufunc.__name__
+        if name == "matmul" and method == "__call__" and out is None and not kwargs:
+            return matmul(*inputs)  # the @ operator
         if name not in SCALAR_OPS:
             if not has_sym(list(inputs)):
                 res = getattr(ufunc, method)(*[to_plain(x) if isinstance(x, rnp.ndarray) else x for x in inputs], **kwargs)
@@ -507,8 +509,14 @@ class SymArray(rnp.ndarray):
     def cumsum(self, axis=None):
         return cumsum(self, axis=axis)
 
-    def mean(self, *a, **k):
-        raise Unsupported("mean")
+    def mean(self, axis=None, dtype=None, out=None, keepdims=False):
+        if out is not None or isinstance(axis, tuple):
+            raise Unsupported("mean(out=) / mean over several axes")
+        n = self.size if axis is None else self.shape[axis]
+        return sum_(self, axis=axis, keepdims=keepdims) / float(n)
+
+    def nonzero(self):
+        return nonzero(self)
 
     def astype(self, dtype, **kw):
         if not has_sym(self):
@@ -606,11 +614,19 @@ def _sym_setitem(a, idx, value):
             raise IndexError("boolean index did not match")
         v = _obj(value) if not _is_scalar(value) else value
         if not _is_scalar(value) and isinstance(v, rnp.ndarray) and v.ndim >= 1 and v.ndim == (base[(0,) + rest].ndim + 1 if True else 0):
-            raise Unsupported("masked assignment of a per-row value array with symbolic mask")
+            # the value array is consumed entry by entry in mask order (data-dependent): decide the mask by forking
+            m = rnp.array([bool(e) for e in first.flat], dtype=bool)
+            rnp.ndarray.__setitem__(base, (m,) + rest, _obj(value))
+            return
         for i in range(n):
             tgt = base[(i,) + rest]
             new = where_(first[i], value, tgt)
             base[(i,) + rest] = _obj(new) if isinstance(new, rnp.ndarray) else new
+        return
+    if isinstance(first, rnp.ndarray) and first.ndim > 1 and all(isinstance(e, (SBool, bool, rnp.bool_)) for e in first.flat):
+        # multi-dimensional boolean mask: decide it by forking, then NumPy does the assignment
+        m = rnp.array([bool(e) for e in first.flat], dtype=bool).reshape(first.shape)
+        rnp.ndarray.__setitem__(base, (m,) + rest, value if _is_scalar(value) else _obj(value))
         return
     if isinstance(first, SInt):
         first = array([first])
@@ -758,6 +774,35 @@ def where_(cond, x=None, y=None):
     if not has_sym([cond, x, y]) and not any(isinstance(t, SymArray) for t in (cond, x, y)):
         return rnp.where(cond, x, y)
     return elementwise(sym.s_where, cond, x, y)
+
+
+def _decide_mask(cond):
+    """Concrete boolean array of a (possibly symbolic) condition array; symbolic entries are decided by forking."""
+    if isinstance(cond, rnp.ndarray) and cond.dtype == object or isinstance(cond, (list, tuple)) and has_sym(cond):
+        c = _obj(cond) if isinstance(cond, rnp.ndarray) else _obj(array(cond))
+        return rnp.array([bool(e) for e in c.flat], dtype=bool).reshape(c.shape)
+    return to_plain(cond) if isinstance(cond, rnp.ndarray) else rnp.asarray(cond)
+
+
+def flatnonzero(a):
+    return rnp.flatnonzero(_decide_nonzero(a))
+
+
+def nonzero(a):
+    return rnp.nonzero(_decide_nonzero(a))
+
+
+def argwhere(a):
+    return rnp.argwhere(_decide_nonzero(a))
+
+
+def _decide_nonzero(a):
+    if isinstance(a, rnp.ndarray) and a.dtype == object:
+        c = _obj(a)
+        if all(isinstance(e, (SBool, bool, rnp.bool_)) for e in c.flat):
+            return _decide_mask(a)
+        return rnp.array([bool(e != 0) for e in c.flat], dtype=bool).reshape(c.shape)
+    return a
 
 
 def _ufunc_like(name):
@@ -1089,7 +1134,7 @@ class _Shim:
         d.update(
             array=array, asarray=asarray, asanyarray=asarray, zeros=zeros, ones=ones, empty=empty, full=full, arange=arange, eye=eye,
             zeros_like=zeros_like, ones_like=ones_like, empty_like=empty_like,
-            where=where_, nan_to_num=nan_to_num, sum=sum_, any=any_, all=all_, count_nonzero=count_nonzero,
+            where=where_, flatnonzero=flatnonzero, nonzero=nonzero, argwhere=argwhere, nan_to_num=nan_to_num, sum=sum_, any=any_, all=all_, count_nonzero=count_nonzero,
             dot=dot, matmul=matmul, abs=abs_, clip=clip, allclose=allclose, isclose=isclose, max=amax, amax=amax, min=amin, amin=amin, argsort=argsort, argmin=argmin, cumsum=cumsum,
             linalg=_Linalg(), ndarray=rnp.ndarray,
         )
